@@ -206,6 +206,9 @@ pub fn run(rep: &mut Rep) {
             }
             let r = rt_named(name, &b);
             judge_rt(rep, name, &b, r);
+            for (dname, dr) in rt_dispatch(name, &b) {
+                judge_rt(rep, dname, &b, dr);
+            }
         }
     }
     // ---- (B) values constructed through the public API (and their model bytes)
@@ -334,5 +337,69 @@ pub fn run(rep: &mut Rep) {
                 judge_rt(rep, "CredentialProtectionPolicy", &b, rt_bytes!(credential_management::CredentialProtectionPolicy, &b));
             }
         }
+    }
+}
+
+/// The three request types are decoded in practice by `Request::deserialize`: the same round trip
+/// through the dispatcher (command byte prepended; 0x41 as well as 0x0A for CredentialManagement).
+macro_rules! rt_via_dispatcher {
+    ($cmd:expr, $variant:path, $t:ty, $b:expr) => {{
+        let b: &[u8] = $b;
+        let cmd: u8 = $cmd;
+        guard(|| {
+            let mut msg = vec![cmd];
+            msg.extend_from_slice(b);
+            let outcome = match ctap2::Request::deserialize(&msg) {
+                Err(e) => Rt::Rejected(format!("Request::deserialize: {:?}", e)),
+                Ok($variant(v)) => {
+                    // the dispatcher must agree with the type's own decoder
+                    let direct = cbor_deserialize::<$t>(b).map(|d| d == v).map_err(|e| format!("{:?}", e));
+                    if direct != Ok(true) {
+                        return Rt::Rejected(format!("Request::deserialize and the type's own decoder disagree: {:?}", direct));
+                    }
+                    let mut buf = vec![0u8; b.len() + 256];
+                    match cbor_serialize(&v, &mut buf) {
+                        Err(e) => Rt::SerErr(format!("{:?}", e)),
+                        Ok(out) => {
+                            let out = out.to_vec();
+                            let mut msg2 = vec![cmd];
+                            msg2.extend_from_slice(&out);
+                            let again = match ctap2::Request::deserialize(&msg2) {
+                                Ok($variant(v2)) => Ok(v2 == v),
+                                Ok(_) => Err("decoded as another request".to_string()),
+                                Err(e) => Err(format!("{:?}", e)),
+                            };
+                            Rt::Done { reencoded: out, redecoded_equal: again }
+                        }
+                    }
+                }
+                Ok(_) => Rt::Rejected("decoded as another request".into()),
+            };
+            outcome
+        })
+    }};
+}
+
+pub fn rt_dispatch(name: &str, b: &[u8]) -> Vec<(&'static str, Result<Rt, String>)> {
+    match name {
+        "client_pin::Request" => vec![(
+            "client_pin::Request(via Request::deserialize)",
+            rt_via_dispatcher!(0x06, ctap2::Request::ClientPin, client_pin::Request, b),
+        )],
+        "credential_management::Request" => vec![
+            (
+                "credential_management::Request(via Request::deserialize)",
+                rt_via_dispatcher!(0x0a, ctap2::Request::CredentialManagement, credential_management::Request, b),
+            ),
+            (
+                "credential_management::Request(via Request::deserialize 0x41)",
+                rt_via_dispatcher!(0x41, ctap2::Request::CredentialManagement, credential_management::Request, b),
+            ),
+        ],
+        "large_blobs::Request" => vec![(
+            "large_blobs::Request(via Request::deserialize)",
+            rt_via_dispatcher!(0x0c, ctap2::Request::LargeBlobs, large_blobs::Request, b),
+        )],
+        _ => vec![],
     }
 }
